@@ -87,6 +87,7 @@ type env struct {
 	voteTxs map[int]interfaces.Transaction
 	// heights of blocks in which an InactiveArbitrators tx named a producer that was ALREADY inactive
 	emergTwice map[uint32]bool
+	cancelTwice map[uint32]bool
 	twoMaps    bool // some producer sits in ActivityProducers AND CanceledProducers (cancel at its activation height)
 	special    bool // an out-of-block special payload (temporary changes) was processed
 }
@@ -379,6 +380,16 @@ func exec(t []string) string {
 		h, _ := strconv.Atoi(t[1])
 		b := blockDesc{height: uint32(h), sponsor: t[2], txs: t[3:]}
 		for _, d := range b.txs {
+			if p := strings.Split(d, ":"); p[0] == "cancel" {
+				// a CancelProducer for a producer that was cancelled before (cancelHeight != 0) but is not in
+				// state Canceled any more (cancel at the activation height / of a pending producer)
+				if pr := e.cur.GetProducer(ownerKeys[idx(p[1])]); pr != nil && pr.CancelHeight() != 0 {
+					if e.cancelTwice == nil {
+						e.cancelTwice = map[uint32]bool{}
+					}
+					e.cancelTwice[uint32(h)] = true
+				}
+			}
 			if p := strings.Split(d, ":"); p[0] == "inactive" {
 				if pr := e.cur.GetProducer(ownerKeys[idx(p[1])]); pr != nil && pr.State() == state2.Inactive {
 					if e.emergTwice == nil {
@@ -412,7 +423,13 @@ func exec(t []string) string {
 	case "rb":
 		k64, _ := strconv.Atoi(t[1])
 		k := uint32(k64)
-		lastTwoMaps, lastSpecial = e.twoMaps, e.special
+		lastTwoMaps, lastSpecial = false, e.special
+		for hh := range e.cancelTwice {
+			if hh > k {
+				lastTwoMaps = true
+				delete(e.cancelTwice, hh)
+			}
+		}
 		lastEmergTwice = false
 		for hh := range e.emergTwice {
 			if hh > k {
@@ -609,11 +626,11 @@ func oracle(t []string, out string) *hx.Violation {
 		if len(det) > 1500 {
 			det = det[:1500] + "…"
 		}
-		det = fmt.Sprintf("emergency-inactive-on-inactive=%v cancel-at-activation=%v special-payload-seen=%v; ", lastEmergTwice, lastTwoMaps, lastSpecial) + det
+		det = fmt.Sprintf("emergency-inactive-on-inactive=%v second-cancel=%v special-payload-seen=%v; ", lastEmergTwice, lastTwoMaps, lastSpecial) + det
 		if lastEmergTwice && emergLeaf[first] {
 			first = "emergency-inactive-twice"
 		} else if lastTwoMaps && twoMapsLeaf[first] {
-			first = "cancel-at-activation"
+			first = "second-cancel"
 		} else if lastSpecial && specialLeaf[first] {
 			first = "special-payload-pollution"
 		}
